@@ -5,7 +5,7 @@
    spectral_listed, mff_listed, cm_listed, cm_species, cm_file_rows are naive second readings of
    the same text (Proofs/C20Sweep.v). *)
 From Coq Require Import ZArith QArith Qabs String List.
-From PT Require Import Str Dec Loaders Ancillary C20Check C20Generic C20Sweep.
+From PT Require Import Str Dec Loaders Ancillary C20Check C20Generic C20Sweep C20Rows.
 From PT.Gen Require Import Cordero.
 Import ListNotations.
 Open Scope string_scope.
@@ -189,3 +189,12 @@ Theorem C20_near_sound : forall m e x scale r, C20FF.near (Py.PF m e) x scale = 
   contains (I.convert (I.mul prec epsI scale)) (Xreal (r - dblR m e)).
 Proof. exact near_sound. Qed.
 Print Assumptions C20_near_sound.
+
+(* the positional crystal-structure table: entry k is the entry the source labels with the symbol of atomic number k
+   (labels regenerated from the '#Sym' comments of crystal_structure.py), and there are as many labels as entries *)
+Theorem C20_crystal_rows_name_their_element :
+  List.length Gen.Crystal.crystal_labels = List.length Gen.Crystal.crystal_structures /\
+  forall k lab, nth_error Gen.Crystal.crystal_labels k = Some lab -> label_ok (Z.of_nat k) lab = true.
+Proof. exact crystal_rows_name_their_element. Qed.
+Print Assumptions C20_crystal_rows_name_their_element.
+
